@@ -252,18 +252,38 @@ func runCase(c tcase) (fails [][2]string, okUpdates int) {
 			err := conns[t.get.svc.Desc.ServiceName].Invoke(ctx, t.get.full(), req.Interface(), resp)
 			return resp, err
 		}
+		// project: the part of a full resource value a stream with this read mask is entitled to
+		project := func(m proto.Message, mask string) proto.Message {
+			if mask == "" || m == nil {
+				return m
+			}
+			want := newOf(t.res)
+			fd := t.res.Fields().ByName(protoreflect.Name(mask))
+			if fd != nil && m.ProtoReflect().Has(fd) {
+				want.Set(fd, m.ProtoReflect().Get(fd))
+			}
+			return want.Interface()
+		}
 		type stream struct {
+			mask        string // read mask of the Pull request: "" = none, else one top-level field
 			updatesOnly bool
 			got         []proto.Message // resource values received
 			names       []string
 			err         error
 		}
 		var streams []*stream
-		open := func(updatesOnly bool) {
-			st := &stream{updatesOnly: updatesOnly}
+		open := func(updatesOnly bool, mask string) {
+			st := &stream{updatesOnly: updatesOnly, mask: mask}
 			streams = append(streams, st)
 			req := newOf(t.pull.desc.Input())
 			setStr(req, "name", devName)
+			if mask != "" {
+				if req.Descriptor().Fields().ByName("read_mask") != nil {
+					setMask(req, "read_mask", mask)
+				} else {
+					st.mask = "" // the request has no read mask
+				}
+			}
 			if fd := req.Descriptor().Fields().ByName("updates_only"); fd != nil {
 				req.Set(fd, protoreflect.ValueOfBool(updatesOnly))
 			} else if updatesOnly {
@@ -304,8 +324,20 @@ func runCase(c tcase) (fails [][2]string, okUpdates int) {
 			fail("get-error", fmt.Sprintf("initial %s failed: %v", t.get.full(), err))
 			return
 		}
-		for i := 0; i < c.Streams; i++ {
-			open(i == 1)
+		// 1: a plain stream; 2: plain + updates-only; 3: masked + plain; 4: plain + masked (who filters an event
+		// first must not matter to the other stream)
+		switch c.Streams {
+		case 1:
+			open(false, "")
+		case 2:
+			open(false, "")
+			open(true, "")
+		case 3:
+			open(false, c.ReadMsk)
+			open(false, "")
+		case 4:
+			open(false, "")
+			open(false, c.ReadMsk)
 		}
 		verifrt.WaitIdle()
 		for i, st := range streams {
@@ -318,7 +350,7 @@ func runCase(c tcase) (fails [][2]string, okUpdates int) {
 					fail("updates-only-seed", fmt.Sprintf("an updates-only Pull started with %d message(s)", len(st.got)))
 					return
 				}
-			} else if len(st.got) != 1 || !proto.Equal(st.got[0], cur) {
+			} else if len(st.got) != 1 || !proto.Equal(st.got[0], project(cur, st.mask)) {
 				// reported, but the history goes on: what the stream does with later updates is a separate clause
 				fail("pull-initial", fmt.Sprintf("a new Pull must start with the current value %v, got %v", cur, st.got))
 			}
@@ -364,6 +396,8 @@ func runCase(c tcase) (fails [][2]string, okUpdates int) {
 			changed := !proto.Equal(after, cur)
 			for i, st := range streams {
 				switch {
+				case st.mask != "" && len(st.got) == 0 && proto.Equal(project(after, st.mask), project(cur, st.mask)):
+					// nothing this stream can see has changed: a model with an equivalence may stay silent
 				case changed && len(st.got) != 1:
 					fail("pull-missed-update", fmt.Sprintf("update #%d changed the value from %v to %v; stream %d (updates_only=%v) received %d message(s): %v", ui, cur, after, i, st.updatesOnly, len(st.got), st.got))
 					return
@@ -372,8 +406,8 @@ func runCase(c tcase) (fails [][2]string, okUpdates int) {
 					return
 				}
 				for k, g := range st.got {
-					if !proto.Equal(g, resp) {
-						fail("pull-value", fmt.Sprintf("stream %d received %v, the update's response is %v", i, g, resp))
+					if !proto.Equal(g, project(resp, st.mask)) {
+						fail("pull-value", fmt.Sprintf("stream %d (read mask %q) received %v, the update's response is %v", i, st.mask, g, resp))
 						return
 					}
 					if st.names[k] != devName {
@@ -461,7 +495,10 @@ func main() {
 					maxLen = 3
 				}
 				for n := 1; n <= maxLen; n++ {
-					for streams := 0; streams <= 2; streams++ {
+					for streams := 0; streams <= 4; streams++ {
+						if streams >= 3 && len(fields) == 0 {
+							continue
+						}
 						for _, m0 := range masks {
 							for _, m1 := range masks {
 								if n == 1 && m1 != "" {
